@@ -2,5 +2,5 @@
 Require Extraction.
 Require Import ExtrOcamlBasic.
 From LLB Require Import Base.Bytes Codec.Codec Codec.FileObs BSys.DirTree.
-Extraction "extracted/Model_dirtree.ml" observe observe_unrepaired observe_truncating rebuild forget_listings clean_build prune excluded filtered_listing
+Extraction "extracted/Model_dirtree.ml" observe observe_unrepaired observe_truncating observe_unprotected rebuild forget_listings clean_build prune excluded filtered_listing
   tree_toks struct_toks struct_toks_unrepaired s_children names nonempty eff sort_by.
